@@ -1560,6 +1560,11 @@ async fn run_pc_nokeys(sc: &Value, o: &mut Outcome) -> Result<(), String> {
             MediaSample::Audio(AudioFrame { rtp_timestamp: i * 160, clock_rate: 8000, data: Bytes::from(vec![0x55u8; 160]), ..Default::default() })
         };
         let _ = src.send(sample);
+        if i % 4 == 1 {
+            let h = RtpHeader::new(101, 40000 + i as u16, i * 160, 0x0D7F_0001);
+            let r = pc.send_raw_rtp(RtpPacket::new(h, vec![1, 0x0a, 0, 160])).await;
+            o.count(if r.is_ok() { "pc_send_raw_rtp_ok_without_keys" } else { "pc_send_raw_rtp_refused_without_keys" });
+        }
         tokio::time::sleep(Duration::from_millis(5)).await;
     }
     tokio::time::sleep(Duration::from_millis(sc["linger_ms"].as_u64().unwrap_or(300))).await;
@@ -1776,6 +1781,15 @@ async fn run_pc_inner(sc: &Value, o: &mut Outcome) -> Result<(), String> {
                         let _ = r.request_key_frame().await;
                     }
                 }
+            }
+        }
+        if i % 5 == 3 {
+            // the PeerConnection-level escape hatch for out-of-band packets (DTMF): same gate
+            for (k, pc) in [&pc1, &pc2].iter().enumerate() {
+                let mut h = RtpHeader::new(101, 40000 + i as u16, i as u32 * 160, 0x0D7F_0000 | k as u32);
+                h.marker = i == 3;
+                let r = pc.send_raw_rtp(RtpPacket::new(h, vec![1, 0x0a, 0, 160])).await;
+                o.count(if r.is_ok() { "pc_send_raw_rtp_ok" } else { "pc_send_raw_rtp_err" });
             }
         }
         if i % 5 == 2 {
